@@ -182,7 +182,41 @@ fn check_parent(run: &Run, pnode: &Node, cfg: &AlphaCfg, max_batch: usize) {
         .flat_map(|(l, b, _)| [127i8, -128].into_iter().map(move |d| (format!("{}/delta={}", l, d), b.clone(), Some(ProposerAction { fee_multiplier_delta: d, reward_dest: addr_true() }))).collect::<Vec<_>>())
         .collect();
     tasks.extend(strong);
+    let invalid: Vec<Transaction> = all_txs.iter().filter(|x| !x.2).map(|x| x.1.clone()).take(4).collect();
     tasks.par_iter().for_each(|(label, batch, act)| {
+        {
+            // a proposer whose mempool also held transactions that turned out invalid (and duplicates): the failed attempts leave
+            // no trace, the block is as honest as any other
+            if !batch.is_empty() && batch.len() <= 2 {
+                let seq = guard(|| {
+                    let mut u = parent.next_unsealed();
+                    for t in batch.iter() {
+                        for inv in &invalid {
+                            let _ = u.apply_tx(inv);
+                        }
+                        u.apply_tx(t).ok()?;
+                        let _ = u.apply_tx(t);
+                        let _ = u.apply_tx_batch(&[t.clone(), t.clone()]);
+                    }
+                    Some(u.seal(*act))
+                });
+                if let Ok(Some(c)) = seq {
+                    let blk = c.to_block();
+                    run.transition();
+                    if blk.transactions.len() != batch.len() {
+                        run.violation("C06", "failed-attempt-left-a-transaction".into(), format!("after failed attempts the block [{}] on [{}] holds {} transactions instead of {}", label, path, blk.transactions.len(), batch.len()), json!({"parent_path": path, "block": label}));
+                    } else if let Ok(Err(e)) = guard(|| parent.apply_block(&blk).map(|s| s.header())) {
+                        run.violation(
+                            "C06",
+                            "rejects-block-built-with-failed-attempts".into(),
+                            format!("the block [{}] built on [{}] by a proposer that also tried invalid and duplicate transactions (all refused) is rejected by apply_block: {}", label, path, e),
+                            json!({"parent_path": path, "block": label, "block_stdcode_hex": hex::encode(stdcode::serialize(&blk).unwrap())}),
+                        );
+                    }
+                    run.validated();
+                }
+            }
+        }
         {
             // a block built the way a proposer builds it - one transaction at a time - is honest too and must be accepted
             if batch.len() >= 2 {
